@@ -125,6 +125,12 @@ def chunk(bl):
     return res
 
 
+def sibling_of(block):
+    """The same block (same variables, same structure) with every coefficient 0.5 replaced by 0.25 and every added constant 1 by 3."""
+    import re
+    return re.sub(r'\+ 1\b', '+ 3', block.replace('0.5*', '0.25*'))
+
+
 def solver_equiv_case(case):
     """E2: the real solver on one block of the generated family, reduction on and off, exogenous values of k >= 1 symbolic, optional step tracing:
     every variable has the same value in every period k >= 1 (the blocks have no within-period simultaneity, so both runs are exact)."""
@@ -132,7 +138,8 @@ def solver_equiv_case(case):
     from vf.symx import Driver, SymReal
     from vf.props.c15 import StubRender
     import sfc_models.equation_solver as ES
-    idx, trace = case
+    idx, trace = case[:2]
+    reuse = len(case) > 2 and case[2]
     from vf.harness.c03_gen import gen_blocks
     name, block = gen_blocks()[idx]
     D = Driver(timeout_ms=10000, max_paths=3000, max_seconds=200)
@@ -148,6 +155,13 @@ def solver_equiv_case(case):
         for reduce in (True, False):
             es = EquationSolver(run_equation_reduction=reduce)
             es.MaxTime = 2
+            if reuse:
+                # the solver object has a past: the same block with other coefficients (a parameter sweep) was parsed and solved on it first
+                es.ParseString(sibling_of(block))
+                try:
+                    es.SolveEquation()
+                except ValueError:
+                    pass
             es.ParseString(block)
             if trace:
                 es.TraceStep = trace
@@ -214,13 +228,21 @@ from fractions import Fraction as F
 import sfc_models.equation_solver as ES
 from sfc_models.equation_solver import EquationSolver
 from vf.harness.c03_gen import gen_blocks
-idx, trace = %(case)r
+case = %(case)r
+idx, trace = case[:2]
+reuse = len(case) > 2 and case[2]
+from vf.props.c03 import sibling_of
 g = [float(F(x)) for x in %(g)r]
 name, block = gen_blocks()[idx]
 ES.SYM_IC = 7.25; ES.SYM_G = [2.0] + g
 res = []
 for reduce in (True, False):
-    es = EquationSolver(run_equation_reduction=reduce); es.MaxTime = 2; es.ParseString(block)
+    es = EquationSolver(run_equation_reduction=reduce); es.MaxTime = 2
+    if reuse:
+        es.ParseString(sibling_of(block))
+        try: es.SolveEquation()
+        except ValueError: pass
+    es.ParseString(block)
     if trace: es.TraceStep = trace
     es.SolveEquation(); res.append({v: list(es.TimeSeries[v]) for v in es.TimeSeries})
 a, b = res
@@ -286,6 +308,8 @@ def run(tier, seed):
     resg = chx.run_file(HG, timeout=T, only=only, workers=14)
     chx.absorb(chk, HG, resg)
     scases = [(i, tr) for i in range(len(gb)) for tr in (None, 2) if tier != 'quick' or (i % 3 == 0 or (i // 2) % 4 == 1)]
+    # ... and on solver objects that parsed and solved a sibling of the block (same names, other coefficients) before
+    scases += [(i, None, True) for i in range(len(gb)) if tier != 'quick' or i % 4 == 1]
     for st, o in pmap(solver_equiv_case, scases):
         if st != 'ok':
             chk.harness_errors.append(o[:800])
@@ -293,13 +317,14 @@ def run(tier, seed):
         chk.solver_s += o['solver_s']
         chk.queries += o['queries']
         chk.count('solver_equiv_paths', o['paths'])
-        what = 'solver: block %s%s: reduction on == off in every period' % (o['name'], ' with step %d traced' % o['case'][1] if o['case'][1] else '')
+        what = 'solver: block %s%s%s: reduction on == off in every period' % (o['name'], ' with step %d traced' % o['case'][1] if o['case'][1] else '',
+                                                                                   ' on solvers that solved a sibling block before' if len(o['case']) > 2 and o['case'][2] else '')
         if not o['exhaustive'] or o['unknown'] or o['dunknown'] or not o['solved']:
             chk.ob('unknown', what)
         else:
             chk.ob('sat' if o['viol'] else 'unsat', what, distinct=('solver-equiv',) + tuple(o['case']))
         if o['viol']:
-            chk.violation('solver-equiv:%s:%s' % (o['name'], 'traced' if o['case'][1] else 'plain'), what + ': ' + o['viol']['why'], REPLAY_SOLVER % dict(case=o['case'], g=o['viol']['g']))
+            chk.violation('solver-equiv:%s:%s' % (o['name'], 'traced' if o['case'][1] else ('reused' if len(o['case']) > 2 and o['case'][2] else 'plain')), what + ': ' + o['viol']['why'], REPLAY_SOLVER % dict(case=o['case'], g=o['viol']['g']))
     for nm in shadow_names():
         r = shadow_case(nm)
         chk.obligations += 1
